@@ -5,6 +5,7 @@ import (
 	"encoding/hex"
 	"fmt"
 	"math/big"
+	"sync/atomic"
 
 	"github.com/btcsuite/btcd/btcec/v2"
 	btcecdsa "github.com/btcsuite/btcd/btcec/v2/ecdsa"
@@ -123,8 +124,10 @@ var degenerate = func() map[string][]byte {
 }()
 
 type keyEnv struct {
-	run *vh.Run
-	enc params.EncodingConfig
+	run         *vh.Run
+	enc         params.EncodingConfig
+	encOK       atomic.Int64
+	cpcCompared atomic.Int64
 }
 
 func (e *keyEnv) checkKey(i int) {
@@ -335,6 +338,7 @@ func (e *keyEnv) checkEncodings(label string, r *vh.RNG, priv *ethsecp256k1.Priv
 	}
 	ok := func(encName string) {
 		run.Count("enc.roundtrip-ok:"+encName, 1)
+		e.encOK.Add(1)
 		run.Nontrivial("enc|" + encName + "|" + shape)
 	}
 	try := func(encName string, f func() error) {
